@@ -348,10 +348,15 @@ def run_mc(module, cfg=None, workers=8, timeout=1800, xmx="8g", cache=True, extr
         raise ToolError(f"TLC timed out on {module}")
     out = r.stdout
     ok = "Model checking completed. No error has been found." in out
+    if extra_args and "-simulate" in extra_args:
+        ok = ("Error:" not in out) and ("violated" not in out) and ("The number of states generated" in out or "states generated" in out or "Finished in" in out)
     violated = re.findall(r"Invariant (\w+) is violated|property (\w+) was violated", out)
     if not ok and not violated:
         raise ToolError(f"TLC failed on {module}:\n{out[-3000:]}")
     st, gen = parse_tlc_stats(out)
+    msim = re.search(r"The number of states generated: (\d+)", out)
+    if msim and st == 0:
+        st = gen = int(msim.group(1))
     res = {"ok": ok, "states": st, "transitions": max(gen - 1, 0), "violated": [a or b for a, b in violated],
            "wall_s": round(time.time() - t, 1), "output_tail": out[-1500:], "tuples": collect_tuples(out)[:20000]}
     log(f"[tlc] MC {module}/{cfg}: ok={ok} states={st} {res['wall_s']}s")
